@@ -228,6 +228,10 @@ class Result:
 
 
 def _check(pc, goal, timeout_ms):
+    from . import sym as _sym
+
+    if _sym.EXTRA_AXIOMS:
+        pc = list(pc) + list(_sym.EXTRA_AXIOMS)
     """returns (verdict, model|None, reason, backend)"""
     s = z3.Solver()
     has_red = bool(_reduction_apps(list(pc) + [goal]))
@@ -490,6 +494,10 @@ def _cvc5(solver, timeout_ms):
 
 
 def cross_check_cvc5(pc, goal, timeout_ms):
+    from . import sym as _sym
+
+    if _sym.EXTRA_AXIOMS:
+        pc = list(pc) + list(_sym.EXTRA_AXIOMS)
     s = z3.Solver()
     s.add(*atom_axioms())
     s.add(*pc)
@@ -516,6 +524,9 @@ def run_contract(cls, tier="quick", cross=False, no_replay=()):
         try:
             base_state = dict(c.__dict__)
 
+            from . import sym as _sym
+
+            del _sym.EXTRA_AXIOMS[:], _sym.MAT_SEEN[:]
             def thunk(c=c, case=case, eng=eng):
                 c.__dict__.clear()
                 c.__dict__.update(base_state)
